@@ -103,10 +103,19 @@ func (s fsState) hash() string {
 }
 
 // model computes the documented effect of a command on a filesystem state.
+// c16LinkTarget maps a base that was set up as a symbolic link to the directory (relative to the root) it points at.
+var c16LinkTarget = map[string]string{}
+
 func model(prev fsState, c c16Cmd, emb map[string]string) (next fsState, fails bool) {
 	base := c.base()
 	if st, ok := prev[base]; ok && !st.Dir {
-		return prev, true // base is a file: refuse, change nothing
+		if tgt, isLink := c16LinkTarget[base]; isLink && st.Mode&os.ModeSymlink != 0 {
+			// the base is a symbolic link to an existing directory (a dotfiles layout): the tree is installed
+			// through the link, i.e. it appears under the link's target; the link itself stays
+			base = tgt
+		} else {
+			return prev, true // base is a file: refuse, change nothing
+		}
 	}
 	// a parent of base that is a file also makes directory creation impossible
 	for p := filepath.Dir(base); p != "." && p != "/"; p = filepath.Dir(p) {
@@ -291,6 +300,17 @@ func runC16(args []string) {
 					}
 					_ = os.WriteFile(p, content, 0o644)
 				}
+			case "base-is-symlink":
+				// every base path is a symbolic link to an existing directory kept elsewhere: relative link
+				// targets (resolved against the LINK's directory, not the working directory)
+				tgt := filepath.Join("other", "linked", strings.ReplaceAll(b, "/", "_"))
+				_ = os.MkdirAll(filepath.Join(dir, tgt), 0o755)
+				_ = os.MkdirAll(filepath.Dir(filepath.Join(dir, b)), 0o755)
+				// (relative targets only: the state directories are copied for every transition, and an absolute target
+				// would make all copies share one directory)
+				link, _ := filepath.Rel(filepath.Dir(filepath.Join(dir, b)), filepath.Join(dir, tgt))
+				_ = os.Symlink(link, filepath.Join(dir, b))
+				c16LinkTarget[b] = tgt
 			case "unrelated-files":
 				_ = os.MkdirAll(filepath.Join(dir, b, "kessoku-di", "notes"), 0o700)
 				_ = os.WriteFile(filepath.Join(dir, b, "other-skill.md"), []byte("someone else's skill"), 0o640)
@@ -308,7 +328,7 @@ func runC16(args []string) {
 	}
 	seen := map[string]bool{}
 	var frontier []*node
-	for _, n := range []string{"absent", "older-install", "unrelated-files", "base-is-a-file", "same-content-other-modes", "same-content-symlinks", "partial-install"} {
+	for _, n := range []string{"absent", "older-install", "unrelated-files", "base-is-a-file", "same-content-other-modes", "same-content-symlinks", "partial-install", "base-is-symlink"} {
 		nd := mkInit(n)
 		seen[nd.state.hash()] = true
 		frontier = append(frontier, nd)
@@ -410,7 +430,7 @@ func runC16(args []string) {
 		"samples":                       samples,
 		"evaluations":                   transitions,
 		"distinct_nontrivial":           states,
-		"rule":                          fmt.Sprintf("breadth-first search over command sequences (depth <= %d) of the real CLI in a private root {home, proj, other}: command = each of the %d documented agents x {default, --user, --path relative, --path absolute, --path with --user}; initial states = {absent, older install with other bytes/modes and an extra file, unrelated files in every base and skill directory, every base path is a file, current content with other permissions (0600/0664/0444/0640), current content behind symbolic links to copies kept elsewhere, partial install (pristine / truncated / missing files)}; state = (path, mode, sha256) snapshot of the whole root, deduplicated by hash; after EVERY transition the snapshot must equal model(previous snapshot, command), the model being the README table (base = custom > user > project; target = base/kessoku-di; complete embedded tree, 0644; only missing parents created; refusal changes nothing). Also: `llm-setup --help` offers exactly the documented subcommands", maxDepth, len(agents)),
+		"rule":                          fmt.Sprintf("breadth-first search over command sequences (depth <= %d) of the real CLI in a private root {home, proj, other}: command = each of the %d documented agents x {default, --user, --path relative, --path absolute, --path with --user}; initial states = {absent, older install with other bytes/modes and an extra file, unrelated files in every base and skill directory, every base path is a file, current content with other permissions (0600/0664/0444/0640), current content behind symbolic links to copies kept elsewhere, partial install (pristine / truncated / missing files), every base a symbolic link (relative target) to an existing directory}; state = (path, mode, sha256) snapshot of the whole root, deduplicated by hash; after EVERY transition the snapshot must equal model(previous snapshot, command), the model being the README table (base = custom > user > project; target = base/kessoku-di; complete embedded tree, 0644; only missing parents created; refusal changes nothing). Also: `llm-setup --help` offers exactly the documented subcommands", maxDepth, len(agents)),
 		"exhaustive":                    true,
 		"documented_agents":             len(agents),
 		"commands":                      len(cmds),
